@@ -6,16 +6,16 @@
 /// Check for `assertion`: "assertion failed: c.map(|x| x as u64) == if nl == 0 { None } else { Some(col - 1) }"
 
 #[test]
-fn kani_concrete_playback_c01_q_a1_arbitrary_4_16020291622503374920() {
+fn kani_concrete_playback_c01_q_a1_arbitrary_4_12257100050022107513() {
     let concrete_vals: Vec<Vec<u8>> = vec![
-        // 108
-        vec![108],
-        // 55
-        vec![55],
-        // 53
-        vec![53],
-        // 55
-        vec![55],
+        // 112
+        vec![112],
+        // 56
+        vec![56],
+        // 48
+        vec![48],
+        // 48
+        vec![48],
     ];
     kani::concrete_playback_run(concrete_vals, c01_q_a1_arbitrary_4);
 }
@@ -25,16 +25,16 @@ fn kani_concrete_playback_c01_q_a1_arbitrary_4_16020291622503374920() {
 /// Check for `cover`: "end"
 
 #[test]
-fn kani_concrete_playback_c01_q_a1_arbitrary_4_10200127654495544354() {
+fn kani_concrete_playback_c01_q_a1_arbitrary_4_623897797843914476() {
     let concrete_vals: Vec<Vec<u8>> = vec![
         // 80
         vec![80],
-        // 66
-        vec![66],
-        // 76
-        vec![76],
-        // 54
-        vec![54],
+        // 56
+        vec![56],
+        // 56
+        vec![56],
+        // 52
+        vec![52],
     ];
     kani::concrete_playback_run(concrete_vals, c01_q_a1_arbitrary_4);
 }
